@@ -113,11 +113,11 @@ mutant("c02-insert-before-matching", "C02", (OB, """        if self.trading {
             self.match_ask(order_entry);
         }
         if order_entry.order.status != Status::Filled {
-            let key: OrderKey = (Side::Ask, order_entry.key.1, self.t);""", """        if self.trading && order_entry.order.vol > 1 {
+            let key: OrderKey = (Side::Ask, order_entry.key.1, self.queue_time());""", """        if self.trading && order_entry.order.vol > 1 {
             self.match_ask(order_entry);
         }
         if order_entry.order.status != Status::Filled {
-            let key: OrderKey = (Side::Ask, order_entry.key.1, self.t);"""), expect="never-crossed")
+            let key: OrderKey = (Side::Ask, order_entry.key.1, self.queue_time());"""), expect="never-crossed")
 mutant("c02-count-not-decremented", "C02", (SIDE, "        vol_at_price.1 -= 1;\n        if vol_at_price.1 == 0 {", "        if vol_at_price.1 == 1 {"), expect="lockstep")
 mutant("c02-cancel-removes-start-vol", "C02", (OB, """                            self.bid_side
                                 .remove_order(order_entry.key, order_entry.order.vol);
@@ -156,7 +156,7 @@ mutant("c01-bid-loop-strict", "C01", (OB, "(order_entry.order.price >= self.ask_
 mutant("c01-ask-loop-strict", "C01", (OB, "(order_entry.order.price <= self.bid_side.best_price())", "(order_entry.order.price < self.bid_side.best_price())"), expect="K4-loop")
 mutant("c01-trade-price-aggressor", "C01", (OB, "price: pass_order.price,", "price: agg_order.price,"), expect="record")
 mutant("c01-first-to-last", "C01", (SIDE, "        self.orders.first_key_value().map(|(_, v)| *v)", "        self.orders.last_key_value().map(|(_, v)| *v)"), expect="lockstep")
-mutant("c01-key-time-arrival", ["C01", "C06"], (OB, "let key: OrderKey = get_ask_key(self.queue_time(), new_price);", "let key: OrderKey = get_ask_key(order_entry.order.arr_time, new_price);"), expect=["K3-queue-time", "fresh-key-time"])
+mutant("c01-key-time-arrival", ["C01", "C06"], (OB, "let key: OrderKey = get_ask_key(self.queue_time(), new_price);", "let key: OrderKey = get_ask_key(order_entry.order.arr_time, new_price);"), expect=["K3-queue-time", "fresh-key-time", "replace"])
 mutant("c01-key-time-stale", ["C01"], (OB, "let key: OrderKey = get_bid_key(self.queue_time(), new_price);", "let key: OrderKey = get_bid_key(order_entry.key.2, new_price);"), expect="K3-queue-time")
 mutant("c01-bid-key-not-inverted", "C01", (SIDE, "    (Side::Bid, Price::MAX - price, t)", "    (Side::Bid, price, t)"), expect="wrapper")
 mutant("c01-remainder-start-vol", ["C01", "C02"], (OB, "                .insert_order(key, order_entry.order.order_id, order_entry.order.vol)\n        }\n    }\n\n    /// Place a buy market",
@@ -457,3 +457,44 @@ mutant("c19-dict-key-renamed", "C19", (PYNP, '("ask_vol".to_string(), data.volum
 mutant("c19-dict-family-dropped", "C19", (PYSS, "        py_data.extend(bid_orders);\n        py_data.extend(ask_orders);", "        py_data.extend(bid_orders);"), expect="dict")
 mutant("c19-trade-columns-swapped", "C19", ("src/bourse/data_processing.py", 'columns = ["time", "side", "price", "vol", "active_id", "passive_id"]', 'columns = ["time", "side", "vol", "price", "active_id", "passive_id"]'), expect="columns")
 mutant("c19-touch-count-vol", "C19", (PYNP, "            data.bid_price_levels[0].0,\n            data.bid_price_levels[0].1,\n            data.ask_price_levels[0].0,\n            data.ask_price_levels[0].1,\n        ];", "            data.bid_price_levels[0].0,\n            data.bid_price_levels[0].1,\n            data.ask_price_levels[0].1,\n            data.ask_price_levels[0].0,\n        ];"), expect="layout")
+
+# ------------------------------------------------------------------------------- behaviour-preserving refactors (all must stay silent)
+ALLBOOK = ["C01", "C02", "C03", "C04", "C05", "C06", "C07", "C12", "C13"]
+refactor("rf-rename-private-matchers", ALLBOOK, [(OB, "match_bid", "execute_buy"), (OB, "match_ask", "execute_sell"), (OB, "match_orders", "fill_pair")], count="all")
+refactor("rf-rename-private-placers", ALLBOOK, [(OB, "place_bid_limit", "rest_buy"), (OB, "place_ask_limit", "rest_sell"), (OB, "place_bid_market", "take_buy"), (OB, "place_ask_market", "take_sell"),
+                                                 (OB, "replace_order", "requeue"), (OB, "reduce_order_vol", "shrink")], count="all")
+refactor("rf-rename-locals-modify", ["C04", "C06", "C12", "C02"], [(OB, "let mut order_entry = self.orders[order_id];\n\n        if order_entry.order.status == Status::Active {\n            match (new_price, new_vol) {",
+          "let mut entry = self.orders[order_id];\n        let order_entry = &mut entry;\n\n        if order_entry.order.status == Status::Active {\n            match (new_price, new_vol) {"),
+         (OB, "                        self.reduce_order_vol(&mut order_entry, reduce_vol);", "                        self.reduce_order_vol(order_entry, reduce_vol);"),
+         (OB, "                        self.replace_order(&mut order_entry, p, v)\n                    }\n                }", "                        self.replace_order(order_entry, p, v)\n                    }\n                }"),
+         (OB, "                    self.replace_order(&mut order_entry, p, v);\n                }", "                    self.replace_order(order_entry, p, v);\n                }"),
+         (OB, "                (Some(p), Some(v)) => self.replace_order(&mut order_entry, p, v),", "                (Some(p), Some(v)) => self.replace_order(order_entry, p, v),"),
+         (OB, "        self.orders[order_id] = order_entry;\n    }\n\n    /// Process an", "        self.orders[order_id] = entry;\n    }\n\n    /// Process an")])
+refactor("rf-market-fanout-index-loop", ["C13", "C14"], (MKT, "    pub fn set_time(&mut self, t: Nanos) {\n        for book in self.order_books.iter_mut() {\n            book.set_time(t)\n        }", "    pub fn set_time(&mut self, t: Nanos) {\n        for i in 0..ASSETS {\n            self.order_books[i].set_time(t)\n        }"))
+refactor("rf-status-eq-flipped", ["C04", "C13", "C01", "C02"], (OB, "        if order_entry.order.status != Status::Filled {\n            let key: OrderKey = (Side::Bid,", "        if !(order_entry.order.status == Status::Filled) {\n            let key: OrderKey = (Side::Bid,"))
+refactor("rf-trading-if-to-match", ["C13", "C02", "C01"], (OB, "        if self.trading {\n            self.match_ask(order_entry);\n        }", "        match self.trading {\n            true => self.match_ask(order_entry),\n            false => (),\n        }"))
+refactor("rf-step-mem-replace", ["C08", "C15", "C10", "C11"], (ENV, "let mut transactions = mem::take(&mut self.transactions);", "let mut transactions = mem::replace(&mut self.transactions, Vec::new());"))
+refactor("rf-getter-via-local", ["C02", "C14", "C18"], (OB, "    pub fn bid_ask(&self) -> (Price, Price) {\n        (self.bid_side.best_price(), self.ask_side.best_price())", "    pub fn bid_ask(&self) -> (Price, Price) {\n        let bid = self.bid_side.best_price();\n        let ask = self.ask_side.best_price();\n        (bid, ask)"))
+refactor("rf-create-order-early-check", ["C12", "C04", "C01"], (OB, "        let order_id = self.current_order_id();\n\n        let order = match (side, price) {", "        let order_id = self.orders.len();\n\n        let order = match (side, price) {"))
+refactor("rf-agents-rename-locals", ["C16", "C17", "C09"], [(MOM, "        let p_limit = self.params.order_ratio * p_market;", "        let prob_limit = self.params.order_ratio * p_market;", ), (MOM, "            if rng.gen::<f64>() < p_limit {", "            if rng.gen::<f64>() < prob_limit {")], count=2)
+refactor("rf-noise-if-else-side", ["C16", "C09"], (NOISE, "                match side {\n                    true => env\n                        .place_order(Side::Bid, self.params.trade_vol, *trader_id, None)\n                        .unwrap(),\n                    false => env\n                        .place_order(Side::Ask, self.params.trade_vol, *trader_id, None)\n                        .unwrap(),\n                };",
+         "                if side {\n                    env.place_order(Side::Bid, self.params.trade_vol, *trader_id, None)\n                        .unwrap();\n                } else {\n                    env.place_order(Side::Ask, self.params.trade_vol, *trader_id, None)\n                        .unwrap();\n                }"))
+refactor("rf-append-record-reorder-levels", ["C11"], (DATA, "            self.volumes_at_levels.0[i].push(record.bid_price_levels[i].0);\n            self.orders_at_levels.0[i].push(record.bid_price_levels[i].1);\n\n            self.volumes_at_levels.1[i].push(record.ask_price_levels[i].0);\n            self.orders_at_levels.1[i].push(record.ask_price_levels[i].1);",
+         "            self.volumes_at_levels.1[i].push(record.ask_price_levels[i].0);\n            self.orders_at_levels.1[i].push(record.ask_price_levels[i].1);\n\n            self.volumes_at_levels.0[i].push(record.bid_price_levels[i].0);\n            self.orders_at_levels.0[i].push(record.bid_price_levels[i].1);"))
+refactor("rf-pyo3-local-binding", ["C18", "C19"], (PYOB, "    pub fn bid_vol(&self) -> Vol {\n        self.0.bid_vol()", "    pub fn bid_vol(&self) -> Vol {\n        let book = &self.0;\n        book.bid_vol()"))
+refactor("rf-loader-match-to-if", ["C07", "C05", "C04"], (OB, "                match order.side {\n                    Side::Bid => bid_side.insert_order(*key, order.order_id, order.vol),\n                    Side::Ask => ask_side.insert_order(*key, order.order_id, order.vol),\n                }",
+         "                if let Side::Bid = order.side {\n                    bid_side.insert_order(*key, order.order_id, order.vol)\n                } else {\n                    ask_side.insert_order(*key, order.order_id, order.vol)\n                }"))
+
+
+# ------------------------------------------------------------------------------- independently written changes (seeded/<id>/patch.diff)
+import glob as _glob
+import json as _json
+import os as _os
+_SEEDED = _os.path.join(_os.path.dirname(_os.path.dirname(_os.path.abspath(__file__))), "seeded")
+for _d in sorted(_glob.glob(_os.path.join(_SEEDED, "*"))):
+    try:
+        _m = _json.load(open(_os.path.join(_d, "meta.json")))
+    except (OSError, ValueError):
+        continue
+    CASES.append(dict(kind="mutant", name="seeded-" + _os.path.basename(_d), props=[_m["property"]], edits=[], expect=None,
+                      patch=_os.path.join(_d, "patch.diff")))
